@@ -4,10 +4,22 @@ the text produced from a molecule graph is a well-formed V3000 file with no phys
 79 characters (80 with the newline), and the V3000 reader reads back the same atoms and bonds.
 
 Spec functions (`atomLogical`, `bondLogical`, `logicalLines`, `header`, `fileLines`) are written from
-the CTfile V3000 format text; `wrap` / `splice` / `tokens` come from Contracts.V30Line.
+the CTfile V3000 format text; `wrap` / `splice` / `tokens` come from Contracts.V30Line, the abstract
+atom / bond lines and their meaning from Contracts.V3000.
+
+Main theorems:
+* writer contracts `_add_header_ok`, `_add_atom_block_ok` (+ `_add_atom_block_keyError`), `_add_bond_block_ok`,
+  `graph_to_molfile_ok` (total correctness for every fuel ≥ longest logical line / 71 + 1);
+* `C09_line_length` (every physical line ≤ 79 characters), `C09_split_lines` / `C09_splitlines`
+  (`split("\n")` / `splitlines()` of the text are exactly the physical lines);
+* `C09_splice` (the reader's tokenizer undoes the wrapping, for every line length);
+* `C09_atom_roundtrip`, `C09_bond_roundtrip` (line level), `C09_file_roundtrip` (reader on the physical lines),
+  `C09` (writer + `splitlines` + line length + reader).
 -/
 import Contracts.V30Line
 import Contracts.V3000
+import Spec.GraphLemmas
+import Mathlib.Data.List.DropRight
 set_option autoImplicit false
 open Py
 open Contracts.V30Line
@@ -179,6 +191,57 @@ theorem _add_atom_block_ok (env : DepEnv) (fuel : Nat) (lines : List Str) (g : G
       rfl
     apply key
     simp [atomLogical, symbolOf, hv, coord, pyStr, toVal, Dict.getD]
+
+/-- a `for` loop that appends wrapped lines until its body raises -/
+theorem forIn_wrap_loop_error {α : Type} (f : α → Str) (body : α → List Str → M (ForInStep (List Str)))
+    (pre : List α) (x : α) (post : List α) (e : Err)
+    (hbody : ∀ y ∈ pre, ∀ lines, body y lines = .ok (.yield (lines ++ wrap (f y))))
+    (hx : ∀ lines, body x lines = .error e) :
+    ∀ lines, forIn (pre ++ x :: post) lines body = .error e := by
+  induction pre with
+  | nil => intro lines; rw [List.nil_append, List.forIn_cons, hx]; rfl
+  | cons y pre ih =>
+    intro lines
+    rw [List.cons_append, List.forIn_cons, hbody y (by simp) lines]
+    simp only [Py.ok_bind]
+    exact ih (fun z hz => hbody z (by simp [hz])) _
+
+/-- the precondition of `_add_atom_block_ok` is necessary: the first node without an element symbol
+makes the writer raise `KeyError` -/
+theorem _add_atom_block_keyError (env : DepEnv) (fuel : Nat) (lines : List Str) (g : Graph)
+    (pre post : List (Int × Attrs)) (p : Int × Attrs) (hsplit : g.nodesData = pre ++ p :: post)
+    (hpre : ∀ q ∈ pre, NodeOk q.2) (hp : p.2.contains "element_symbol" = false)
+    (hf : ∀ l ∈ [py!"BEGIN ATOM"] ++ pre.map (atomLogical env), l.length / 71 + 1 ≤ fuel) :
+    Tucan.molfile_writer._add_atom_block env fuel lines g false = .error .key := by
+  unfold Tucan.molfile_writer._add_atom_block
+  simp only [truthy_false, Bool.false_eq_true, if_false]
+  rw [add_v30_line_ok env fuel lines _ (hf _ (by simp))]
+  simp only [Py.ok_bind, pyIter_list, hsplit]
+  rw [forIn_wrap_loop_error (atomLogical env) _ pre p post .key]
+  · rfl
+  · rintro ⟨index, attrs⟩ hx lines
+    obtain ⟨hsym, hmass⟩ := hpre _ hx
+    simp only [chgField_eq, radField_eq, massField_eq attrs hmass]
+    have hget : ∃ v, Dict.get? attrs "element_symbol" = some v := by
+      simpa [Dict.contains, Option.isSome_iff_exists] using hsym
+    obtain ⟨v, hv⟩ := hget
+    have hgi : (getItem attrs "element_symbol" : M Val) = .ok v := by
+      simp [getItem, toKey, hv]
+    simp only [hgi, Py.ok_bind, Py.pure_eq_ok]
+    have key : ∀ l, l = atomLogical env (index, attrs) →
+        (Tucan.molfile_writer._add_v30_line env fuel lines l >>= fun lines_2 => pure (ForInStep.yield lines_2)) =
+          (.ok (ForInStep.yield (lines ++ wrap (atomLogical env (index, attrs)))) : M _) := by
+      intro l hl
+      rw [hl, add_v30_line_ok env fuel lines _ (hf _ (by simp; exact Or.inr ⟨_, _, hx, rfl⟩))]
+      rfl
+    apply key
+    simp [atomLogical, symbolOf, hv, coord, pyStr, toVal, Dict.getD]
+  · intro lines
+    have hgi : (getItem p.2 "element_symbol" : M Val) = .error .key := by
+      have : Dict.get? p.2 "element_symbol" = none := by
+        simpa [Dict.contains] using hp
+      simp [getItem, toKey, this]
+    simp only [hgi, Py.ok_bind, Py.pure_eq_ok, Py.error_bind]
 
 theorem enumerate_cons {α} (a : α) (l : List α) (s : Int) : enumerate (a :: l) s = (s, a) :: enumerate l (s + 1) := by
   simp only [enumerate, List.length_cons, List.range_succ_eq_map, List.map_cons, List.zip_cons_cons, List.map_map]
@@ -387,11 +450,31 @@ theorem mem_pyStrInt (n : Int) : ∀ c ∈ pyStrInt n, c.isDigit = true ∨ c = 
     · exact Or.inr rfl
     · exact Or.inl (Nat.isDigit_of_mem_toDigits (by decide) (by decide) hc)
 
-theorem nl_not_mem_pyStrInt (n : Int) : '\n' ∉ pyStrInt n := by
-  intro h
-  rcases mem_pyStrInt n _ h with h | h
-  · exact absurd h (by decide)
-  · exact absurd h (by decide)
+/-- a string without any character at which `str.splitlines()` breaks a line (`\n`, `\r`, `\x0b`,
+`\x0c`, `\x1c`–`\x1e`, `\x85`, U+2028, U+2029) -/
+def Plain (s : Str) : Prop := ∀ c ∈ s, isLineBreak c = false
+
+instance (s : Str) : Decidable (Plain s) := by unfold Plain; infer_instance
+
+theorem plain_nil : Plain [] := by simp [Plain]
+
+theorem plain_append {a b : Str} (ha : Plain a) (hb : Plain b) : Plain (a ++ b) := by
+  intro c hc
+  rcases List.mem_append.mp hc with h | h
+  · exact ha c h
+  · exact hb c h
+
+theorem Plain.nl {s : Str} (h : Plain s) : '\n' ∉ s := fun hc => absurd (h _ hc) (by decide)
+
+theorem lineBreak_not_digit (c : Char) (h : c.isDigit = true ∨ c = '-') : isLineBreak c = false := by
+  by_contra hb
+  rw [Bool.not_eq_false] at hb
+  unfold isLineBreak at hb
+  simp only [decide_eq_true_eq] at hb
+  rcases hb with rfl|rfl|rfl|rfl|rfl|rfl|rfl|rfl|rfl|rfl <;> revert h <;> decide
+
+theorem plain_pyStrInt (n : Int) : Plain (pyStrInt n) :=
+  fun c hc => lineBreak_not_digit c (mem_pyStrInt n c hc)
 
 theorem mem_wrap (l : Str) : ∀ p ∈ wrap l, ∀ c ∈ p, c ∈ v30 ∨ c ∈ l ∨ c = '-' := by
   induction l using wrap.induct with
@@ -439,61 +522,57 @@ theorem mem_replaceAllAux (old new : Str) (c : Char) : ∀ (fuel : Nat) (s : Str
           · exact Or.inl (by simp [h])
           · exact Or.inr h
 
-/-- the header contains no newline if the version string and the time stamp contain none -/
-theorem nl_not_mem_header (env : DepEnv) (hv : '\n' ∉ env.version) (hs : '\n' ∉ env.nowStamp) :
-    ∀ p ∈ header env, '\n' ∉ p := by
-  have hprog : '\n' ∉ progName env := by
-    intro h
+/-- the header contains no line break if the version string and the time stamp contain none -/
+theorem plain_header (env : DepEnv) (hv : Plain env.version) (hs : Plain env.nowStamp) :
+    ∀ p ∈ header env, Plain p := by
+  have hprog : Plain (progName env) := by
+    intro c h
     simp only [progName, padRight, List.mem_append, List.mem_replicate] at h
     rcases h with h | h | h
-    · revert h; decide
+    · exact (by decide : Plain py!"TUCAN") c h
     · rcases mem_replaceAllAux _ _ _ _ _ (List.mem_of_mem_take h) with h | h
-      · exact hv h
+      · exact hv c h
       · simp at h
-    · exact absurd h.2 (by decide)
+    · rw [h.2]; decide
   intro p hp
   simp only [header, List.mem_cons, List.not_mem_nil, or_false] at hp
   rcases hp with rfl | rfl | rfl | rfl
-  · simp
-  · intro h
-    simp only [List.mem_append] at h
-    rcases h with ((h | h) | h) | h
-    · revert h; decide
-    · exact hprog h
-    · exact hs h
-    · revert h; decide
-  · simp
+  · exact plain_nil
+  · exact plain_append (plain_append (plain_append (by decide) hprog) hs) (by decide)
+  · exact plain_nil
   · decide
 
-/-- the values the writer prints contain no newline: the formatted coordinates, the element symbols and
-the bond types (`str()` of an integer never does) -/
-structure NoNewline (env : DepEnv) (g : Graph) : Prop where
-  fmt6 : ∀ v, '\n' ∉ env.fmt6 v
-  sym : ∀ p ∈ g.nodesData, '\n' ∉ symbolOf p.2
-  bond : ∀ e ∈ g.edgesData, '\n' ∉ bondTypeOf e.2.2
+/-- the values the writer prints contain no line break: the formatted coordinates, the element symbols
+and the bond types (`str()` of an integer never does) -/
+structure PlainValues (env : DepEnv) (g : Graph) : Prop where
+  fmt6 : ∀ v, Plain (env.fmt6 v)
+  sym : ∀ p ∈ g.nodesData, Plain (symbolOf p.2)
+  bond : ∀ e ∈ g.edgesData, Plain (bondTypeOf e.2.2)
 
-theorem nl_not_mem_field (pre : Str) (hpre : '\n' ∉ pre) (o : Option Int) (P : Int → Prop) [DecidablePred P] :
-    '\n' ∉ (match o with | some c => if P c then pre ++ pyStrInt c else [] | none => []) := by
+theorem plain_field (pre : Str) (hpre : Plain pre) (o : Option Int) (P : Int → Prop) [DecidablePred P] :
+    Plain (match o with | some c => if P c then pre ++ pyStrInt c else [] | none => []) := by
   cases o with
-  | none => simp
+  | none => exact plain_nil
   | some c =>
     by_cases h : P c
-    · simp only [h, if_true, List.mem_append, not_or]; exact ⟨hpre, nl_not_mem_pyStrInt c⟩
-    · simp [h]
+    · simp only [h, if_true]; exact plain_append hpre (plain_pyStrInt c)
+    · simp only [h, if_false]; exact plain_nil
 
-theorem nl_not_mem_atomLogical (env : DepEnv) (p : Int × Attrs) (hfmt : ∀ v, '\n' ∉ env.fmt6 v)
-    (hsym : '\n' ∉ symbolOf p.2) : '\n' ∉ atomLogical env p := by
-  have h1 := nl_not_mem_field py!" CHG=" (by decide) (intAttr p.2 "chg") (fun c => c ≠ 0 ∧ -15 ≤ c ∧ c ≤ 15)
-  have h2 := nl_not_mem_field py!" RAD=" (by decide) (intAttr p.2 "rad") (fun c => 1 ≤ c ∧ c ≤ 3)
-  have h3 := nl_not_mem_field py!" MASS=" (by decide) (intAttr p.2 "mass") (fun c => 0 < c)
-  simp only [atomLogical, List.mem_append, not_or, and_assoc]
-  exact ⟨nl_not_mem_pyStrInt _, by decide, hsym, by decide, hfmt _, by decide, hfmt _, by decide, hfmt _, by decide,
-    h1, h2, h3⟩
+theorem plain_atomLogical (env : DepEnv) (p : Int × Attrs) (hfmt : ∀ v, Plain (env.fmt6 v))
+    (hsym : Plain (symbolOf p.2)) : Plain (atomLogical env p) := by
+  have h1 := plain_field py!" CHG=" (by decide) (intAttr p.2 "chg") (fun c => c ≠ 0 ∧ -15 ≤ c ∧ c ≤ 15)
+  have h2 := plain_field py!" RAD=" (by decide) (intAttr p.2 "rad") (fun c => 1 ≤ c ∧ c ≤ 3)
+  have h3 := plain_field py!" MASS=" (by decide) (intAttr p.2 "mass") (fun c => 0 < c)
+  have hb : Plain py!" " := by decide
+  have h0 : Plain py!" 0" := by decide
+  exact plain_append (plain_append (plain_append (plain_append (plain_append (plain_append (plain_append (plain_append
+    (plain_append (plain_append (plain_append (plain_append (plain_pyStrInt _) hb) hsym) hb) (hfmt _)) hb) (hfmt _)) hb)
+    (hfmt _)) h0) h1) h2) h3
 
-theorem nl_not_mem_bondLogical (p : Int × Int × Int × Attrs) (hb : '\n' ∉ bondTypeOf p.2.2.2) :
-    '\n' ∉ bondLogical p := by
-  simp only [bondLogical, List.mem_append, not_or, and_assoc]
-  exact ⟨nl_not_mem_pyStrInt _, by decide, hb, by decide, nl_not_mem_pyStrInt _, by decide, nl_not_mem_pyStrInt _⟩
+theorem plain_bondLogical (p : Int × Int × Int × Attrs) (hb : Plain (bondTypeOf p.2.2.2)) : Plain (bondLogical p) := by
+  have hsp : Plain py!" " := by decide
+  exact plain_append (plain_append (plain_append (plain_append (plain_append (plain_append (plain_pyStrInt _) hsp) hb) hsp)
+    (plain_pyStrInt _)) hsp) (plain_pyStrInt _)
 
 theorem mem_numbered {α} (l : List α) (p : Int × α) (h : p ∈ numbered l) : p.2 ∈ l := by
   simp only [numbered, List.mem_map] at h
@@ -501,18 +580,18 @@ theorem mem_numbered {α} (l : List α) (p : Int × α) (h : p ∈ numbered l) :
   have h := (List.mem_zipIdx' hq).2
   rw [h]; exact List.getElem_mem _
 
-theorem nl_not_mem_logicalLines (env : DepEnv) (g : Graph) (h : NoNewline env g) :
-    ∀ l ∈ logicalLines env g, '\n' ∉ l := by
+theorem plain_logicalLines (env : DepEnv) (g : Graph) (h : PlainValues env g) :
+    ∀ l ∈ logicalLines env g, Plain l := by
   intro l hl
   simp only [logicalLines, List.mem_append, List.mem_cons, List.not_mem_nil, or_false] at hl
   rcases hl with ((((rfl | rfl | rfl) | hl) | rfl) | hl) | rfl
   · decide
-  · simp only [countsLine, List.mem_append, not_or, and_assoc]
-    exact ⟨by decide, nl_not_mem_pyStrInt _, by decide, nl_not_mem_pyStrInt _, by decide⟩
+  · exact plain_append (plain_append (plain_append (plain_append (by decide) (plain_pyStrInt _)) (by decide))
+      (plain_pyStrInt _)) (by decide)
   · decide
   · simp only [atomLines, List.mem_map] at hl
     obtain ⟨p, hp, rfl⟩ := hl
-    exact nl_not_mem_atomLogical env p h.fmt6 (h.sym p hp)
+    exact plain_atomLogical env p h.fmt6 (h.sym p hp)
   · decide
   · unfold bondBlock at hl
     split at hl
@@ -520,88 +599,132 @@ theorem nl_not_mem_logicalLines (env : DepEnv) (g : Graph) (h : NoNewline env g)
     · simp only [List.mem_append, List.mem_cons, List.not_mem_nil, or_false, bondLines, List.mem_map] at hl
       rcases hl with (rfl | ⟨p, hp, rfl⟩) | rfl
       · decide
-      · exact nl_not_mem_bondLogical p (h.bond p.2 (mem_numbered _ p hp))
+      · exact plain_bondLogical p (h.bond p.2 (mem_numbered _ p hp))
       · decide
   · decide
 
-theorem nl_not_mem_fileLines (env : DepEnv) (g : Graph) (hv : '\n' ∉ env.version) (hs : '\n' ∉ env.nowStamp)
-    (h : NoNewline env g) : ∀ p ∈ fileLines env g, '\n' ∉ p := by
+theorem plain_fileLines (env : DepEnv) (g : Graph) (hv : Plain env.version) (hs : Plain env.nowStamp)
+    (h : PlainValues env g) : ∀ p ∈ fileLines env g, Plain p := by
   intro p hp
   simp only [fileLines, List.mem_append, List.mem_flatMap, List.mem_cons, List.not_mem_nil, or_false] at hp
   rcases hp with (hp | ⟨l, hl, hp⟩) | rfl
-  · exact nl_not_mem_header env hv hs p hp
-  · intro hc
+  · exact plain_header env hv hs p hp
+  · intro c hc
     rcases mem_wrap l p hp _ hc with h1 | h1 | h1
-    · revert h1; decide
-    · exact nl_not_mem_logicalLines env g h l hl h1
-    · revert h1; decide
+    · exact (by decide : Plain v30) c h1
+    · exact plain_logicalLines env g h l hl c h1
+    · rw [h1]; decide
   · decide
 
-/-- **C09, physical lines.** Splitting the produced text at newlines gives back exactly the physical
-lines `fileLines` (so `C09_line_length` speaks about the lines of the file). -/
-theorem C09_split_lines (env : DepEnv) (g : Graph) (hv : '\n' ∉ env.version) (hs : '\n' ∉ env.nowStamp)
-    (h : NoNewline env g) : split (join py!"\n" (fileLines env g)) py!"\n" = fileLines env g :=
-  split_join '\n' (fileLines env g) (by simp [fileLines]) (nl_not_mem_fileLines env g hv hs h)
+/-- **C09, physical lines (`split`).** Splitting the produced text at newlines gives back exactly the
+physical lines `fileLines` (so `C09_line_length` speaks about the lines of the file). -/
+theorem C09_split_lines (env : DepEnv) (g : Graph) (hv : Plain env.version) (hs : Plain env.nowStamp)
+    (h : PlainValues env g) : split (join py!"\n" (fileLines env g)) py!"\n" = fileLines env g :=
+  split_join '\n' (fileLines env g) (by simp [fileLines]) (fun p hp => (plain_fileLines env g hv hs h p hp).nl)
+
+/-! ### `splitlines` (what the reader uses) undoes `"\n".join` as well -/
+
+theorem splitlinesAux_plain (t : Str) (ht : Plain t) : ∀ (rest cur : Str),
+    splitlinesAux (t ++ rest) cur = splitlinesAux rest (t.reverse ++ cur) := by
+  induction t with
+  | nil => intro rest cur; rfl
+  | cons c t ih =>
+    intro rest cur
+    have hc : isLineBreak c = false := ht c (by simp)
+    have hr : c ≠ '\r' := by rintro rfl; exact absurd hc (by decide)
+    rw [List.cons_append, splitlinesAux]
+    · simp only [hc, Bool.false_eq_true, if_false]
+      rw [ih (fun d hd => ht d (by simp [hd]))]
+      simp
+    · intro cs h _; exact hr h
+
+theorem splitlinesAux_nl (rest cur : Str) : splitlinesAux ('\n' :: rest) cur = cur.reverse :: splitlinesAux rest [] := by
+  rw [splitlinesAux]
+  · simp [isLineBreak]
+  · intro cs h; exact absurd h (by decide)
+
+/-- `"\n".join(ls).splitlines() == ls` for lines without line-break characters, the last one non-empty -/
+theorem splitlines_join : ∀ (ls : List Str), (∀ l ∈ ls, Plain l) → (∀ l, ls.getLast? = some l → l ≠ []) →
+    splitlinesAux (join py!"\n" ls) [] = ls
+  | [], _, _ => by simp [join, splitlinesAux]
+  | [a], hp, hl => by
+    have ha : a ≠ [] := hl a (by simp)
+    rw [join_singleton]
+    have := splitlinesAux_plain a (hp a (by simp)) [] []
+    simp only [List.append_nil] at this
+    rw [this]
+    simp [splitlinesAux, ha]
+  | a :: b :: r, hp, hl => by
+    rw [join_cons_cons, List.append_assoc, splitlinesAux_plain a (hp a (by simp)), List.singleton_append, splitlinesAux_nl,
+      splitlines_join (b :: r) (fun l h => hp l (by simp [h])) (fun l h => hl l (by simpa using h))]
+    simp
+
+/-- **C09, physical lines (`splitlines`).** The reader's `splitlines()` gives back exactly the physical
+lines `fileLines`. -/
+theorem C09_splitlines (env : DepEnv) (g : Graph) (hv : Plain env.version) (hs : Plain env.nowStamp)
+    (h : PlainValues env g) : splitlines (join py!"\n" (fileLines env g)) = fileLines env g :=
+  splitlines_join _ (plain_fileLines env g hv hs h) (by simp [fileLines])
 
 /-! ## 4. C09: the reader's splicing undoes the wrapping -/
 
-/-- "does not end in a dash" is preserved by appending such strings -/
-theorem getLast?_append_ne (a b : Str) (ha : a.getLast? ≠ some '-') (hb : b.getLast? ≠ some '-') :
-    (a ++ b).getLast? ≠ some '-' := by
+/-- "does not end in `d`" is preserved by appending such strings -/
+theorem getLast?_append_ne (d : Char) (a b : Str) (ha : a.getLast? ≠ some d) (hb : b.getLast? ≠ some d) :
+    (a ++ b).getLast? ≠ some d := by
   rw [List.getLast?_append]
   cases h : b.getLast? with
   | none => simpa using ha
   | some c => rw [h] at hb; simpa using hb
 
-theorem getLast?_toDigits (n : Nat) : (Nat.toDigits 10 n).getLast? ≠ some '-' := by
-  intro h
-  have hm := List.mem_of_getLast? h
-  exact absurd (Nat.isDigit_of_mem_toDigits (by decide) (by decide) hm) (by decide)
-
-/-- `str()` of an integer ends in a digit -/
-theorem getLast?_pyStrInt (n : Int) : (pyStrInt n).getLast? ≠ some '-' := by
-  rw [pyStrInt_eq]
-  split
-  · exact getLast?_toDigits _
-  · rw [List.getLast?_cons_of_ne_nil Nat.toDigits_ne_nil]
-    exact getLast?_toDigits _
-
-theorem getLast?_field (pre : Str) (o : Option Int) (P : Int → Prop) [DecidablePred P] :
-    (match o with | some c => if P c then pre ++ pyStrInt c else [] | none => []).getLast? ≠ some '-' := by
-  cases o with
-  | none => simp
-  | some c =>
-    by_cases h : P c
-    · simp only [h, if_true]
-      rw [List.getLast?_append]
-      cases h' : (pyStrInt c).getLast? with
-      | none => exact absurd (List.getLast?_eq_none_iff.mp h') (by
-          rw [pyStrInt_eq]; split <;> simp [Nat.toDigits_ne_nil])
-      | some d => have := getLast?_pyStrInt c; rw [h'] at this; simpa using this
-    · simp [h]
-
-/-- an atom line ends in the `0` of the atom-atom mapping or in the digits of CHG/RAD/MASS -/
-theorem getLast?_atomLogical (env : DepEnv) (p : Int × Attrs) : (atomLogical env p).getLast? ≠ some '-' := by
-  unfold atomLogical
-  refine getLast?_append_ne _ _ (getLast?_append_ne _ _ (getLast?_append_ne _ _ ?_ ?_) ?_) ?_
-  · rw [List.getLast?_append]; simp
-  · exact getLast?_field _ _ (fun c => c ≠ 0 ∧ -15 ≤ c ∧ c ≤ 15)
-  · exact getLast?_field _ _ (fun c => 1 ≤ c ∧ c ≤ 3)
-  · exact getLast?_field _ _ (fun c => 0 < c)
-
-theorem getLast?_append_of_ne (a b : Str) (hb : b.getLast? ≠ some '-') (hne : b ≠ []) :
-    (a ++ b).getLast? ≠ some '-' := by
+theorem getLast?_append_of_ne (d : Char) (a b : Str) (hb : b.getLast? ≠ some d) (hne : b ≠ []) :
+    (a ++ b).getLast? ≠ some d := by
   rw [List.getLast?_append]
   cases h : b.getLast? with
   | none => exact absurd (List.getLast?_eq_none_iff.mp h) hne
   | some c => rw [h] at hb; simpa using hb
 
+theorem getLast?_toDigits (d : Char) (hd : d.isDigit = false) (n : Nat) : (Nat.toDigits 10 n).getLast? ≠ some d := by
+  intro h
+  have hm := List.mem_of_getLast? h
+  rw [Nat.isDigit_of_mem_toDigits (by decide) (by decide) hm] at hd
+  cases hd
+
 theorem pyStrInt_ne_nil (n : Int) : pyStrInt n ≠ [] := by
   rw [pyStrInt_eq]; split <;> simp [Nat.toDigits_ne_nil]
 
-theorem getLast?_bondLogical (p : Int × Int × Int × Attrs) : (bondLogical p).getLast? ≠ some '-' := by
+/-- `str()` of an integer ends in a digit -/
+theorem getLast?_pyStrInt (d : Char) (hd : d.isDigit = false) (n : Int) : (pyStrInt n).getLast? ≠ some d := by
+  rw [pyStrInt_eq]
+  split
+  · exact getLast?_toDigits d hd _
+  · rw [List.getLast?_cons_of_ne_nil Nat.toDigits_ne_nil]
+    exact getLast?_toDigits d hd _
+
+theorem getLast?_field (d : Char) (hd : d.isDigit = false) (pre : Str) (o : Option Int) (P : Int → Prop) [DecidablePred P] :
+    (match o with | some c => if P c then pre ++ pyStrInt c else [] | none => []).getLast? ≠ some d := by
+  cases o with
+  | none => simp
+  | some c =>
+    by_cases h : P c
+    · simp only [h, if_true]
+      exact getLast?_append_of_ne d _ _ (getLast?_pyStrInt d hd c) (pyStrInt_ne_nil c)
+    · simp [h]
+
+/-- an atom line ends in the `0` of the atom-atom mapping or in the digits of CHG/RAD/MASS -/
+theorem getLast?_atomLogical (d : Char) (hd : d.isDigit = false) (env : DepEnv) (p : Int × Attrs) :
+    (atomLogical env p).getLast? ≠ some d := by
+  unfold atomLogical
+  refine getLast?_append_ne d _ _ (getLast?_append_ne d _ _ (getLast?_append_ne d _ _ ?_ ?_) ?_) ?_
+  · rw [List.getLast?_append]
+    simp only [List.getLast?_cons_cons, List.getLast?_singleton, Option.some_or, ne_eq, Option.some.injEq]
+    rintro rfl; exact absurd hd (by decide)
+  · exact getLast?_field d hd _ _ (fun c => c ≠ 0 ∧ -15 ≤ c ∧ c ≤ 15)
+  · exact getLast?_field d hd _ _ (fun c => 1 ≤ c ∧ c ≤ 3)
+  · exact getLast?_field d hd _ _ (fun c => 0 < c)
+
+theorem getLast?_bondLogical (d : Char) (hd : d.isDigit = false) (p : Int × Int × Int × Attrs) :
+    (bondLogical p).getLast? ≠ some d := by
   unfold bondLogical
-  exact getLast?_append_of_ne _ _ (getLast?_pyStrInt _) (pyStrInt_ne_nil _)
+  exact getLast?_append_of_ne d _ _ (getLast?_pyStrInt d hd _) (pyStrInt_ne_nil _)
 
 /-- no logical line of the connection table ends in a dash (so no physical line is mistaken for a
 continued line) -/
@@ -611,11 +734,11 @@ theorem getLast?_logicalLines (env : DepEnv) (g : Graph) : ∀ l ∈ logicalLine
   rcases hl with ((((rfl | rfl | rfl) | hl) | rfl) | hl) | rfl
   · decide
   · unfold countsLine
-    exact getLast?_append_of_ne _ _ (by decide) (by decide)
+    exact getLast?_append_of_ne '-' _ _ (by decide) (by decide)
   · decide
   · simp only [atomLines, List.mem_map] at hl
     obtain ⟨p, _, rfl⟩ := hl
-    exact getLast?_atomLogical env p
+    exact getLast?_atomLogical '-' (by decide) env p
   · decide
   · unfold bondBlock at hl
     split at hl
@@ -623,7 +746,7 @@ theorem getLast?_logicalLines (env : DepEnv) (g : Graph) : ∀ l ∈ logicalLine
     · simp only [List.mem_append, List.mem_cons, List.not_mem_nil, or_false, bondLines, List.mem_map] at hl
       rcases hl with (rfl | ⟨p, _, rfl⟩) | rfl
       · decide
-      · exact getLast?_bondLogical p
+      · exact getLast?_bondLogical '-' (by decide) p
       · decide
   · decide
 
@@ -656,12 +779,18 @@ theorem header_not_continued (env : DepEnv) : ∀ p ∈ header env, (startswith 
 def splicedLines (env : DepEnv) (g : Graph) : List Str :=
   header env ++ (logicalLines env g).map (fun l => v30 ++ l) ++ [py!"M  END"]
 
+/-- splicing the connection-table part of the file (everything after the four header lines) -/
+theorem splice_body (env : DepEnv) (g : Graph) :
+    splice ((logicalLines env g).flatMap wrap ++ [py!"M  END"]) =
+      .ok ((logicalLines env g).map (fun l => v30 ++ l) ++ [py!"M  END"]) := by
+  rw [splice_flatMap_wrap _ _ (getLast?_logicalLines env g)]
+  simp [splice]
+
+/-- splicing the whole file would give the same (no header line the writer produces looks like a
+continued line); readers that splice from the first line on are served as well -/
 theorem splice_fileLines (env : DepEnv) (g : Graph) : splice (fileLines env g) = .ok (splicedLines env g) := by
   have hh := header_not_continued env
-  have hbody : splice ((logicalLines env g).flatMap wrap ++ [py!"M  END"]) =
-      .ok ((logicalLines env g).map (fun l => v30 ++ l) ++ [py!"M  END"]) := by
-    rw [splice_flatMap_wrap _ _ (getLast?_logicalLines env g)]
-    simp [splice]
+  have hbody := splice_body env g
   have hne : (logicalLines env g).flatMap wrap ++ [py!"M  END"] ≠ [] := by simp
   unfold fileLines splicedLines
   rw [List.append_assoc]
@@ -672,12 +801,940 @@ theorem splice_fileLines (env : DepEnv) (g : Graph) : splice (fileLines env g) =
     splice_cons_plain _ _ (by simp) (hh _ (by simp)), splice_cons_plain _ _ hne (hh _ (by simp)), hbody]
   simp
 
+theorem take4_fileLines (env : DepEnv) (g : Graph) : (fileLines env g).take 4 = header env := by
+  simp [fileLines, header]
+
+theorem drop4_fileLines (env : DepEnv) (g : Graph) :
+    (fileLines env g).drop 4 = (logicalLines env g).flatMap wrap ++ [py!"M  END"] := by
+  simp [fileLines, header]
+
 /-- **C09, splicing.** For every line length (no wrap, one wrap, several wraps) the reader's
-tokenizer sees exactly the logical lines the writer was given. -/
+tokenizer sees exactly the logical lines the writer was given (the four header lines are tokenized as
+they are). -/
 theorem C09_splice (env : DepEnv) (g : Graph) (fuel : Nat) (hf : (fileLines env g).length + 1 ≤ fuel) :
     Tucan.molfile_v3000_reader._tokenize_lines env fuel (fileLines env g) =
       .ok ((header env).map tokens ++ (logicalLines env g).map (fun l => tokens (v30 ++ l)) ++ [tokens py!"M  END"]) := by
-  rw [tokenize_lines_ok env fuel _ hf, splice_fileLines]
-  simp [splicedLines, Function.comp_def]
+  rw [tokenize_lines_ok env fuel _ (by rw [List.length_drop]; omega), take4_fileLines, drop4_fileLines, splice_body]
+  simp [Function.comp_def]
+
+/-! ## 5. reading the atom and bond lines back
+
+### `int(str(n)) == n` (the lemmas of this subsection are the ones of Contracts.V2000, repeated here so
+that the writer's contract does not depend on the V2000 reader) -/
+
+theorem isAsciiDigit_eq (c : Char) : isAsciiDigit c = c.isDigit := by
+  unfold isAsciiDigit Char.isDigit
+  simp only [Char.le_def, UInt32.le_iff_toNat_le]
+  rw [Bool.eq_iff_iff]
+  simp
+
+theorem not_space_of_digit (c : Char) (h : c.isDigit = true) : isPySpace c = false := by
+  by_contra hs
+  rw [Bool.not_eq_false] at hs
+  unfold isPySpace at hs
+  simp only [decide_eq_true_eq] at hs
+  rcases hs with rfl|rfl|rfl|rfl|rfl|rfl|rfl|rfl|rfl|rfl|rfl|rfl <;> exact absurd h (by decide)
+
+theorem rstrip_eq_self (ds : Str) (h : ∀ hne : ds ≠ [], isPySpace (ds.getLast hne) = false) : rstrip ds = ds := by
+  unfold rstrip
+  have := (List.rdropWhile_eq_self_iff (p := isPySpace) (l := ds)).2 (by simpa using h)
+  simpa [List.rdropWhile] using this
+
+
+theorem digit_ne (c : Char) (h : c.isDigit = true) : c ≠ '-' ∧ c ≠ '+' ∧ c ≠ '_' := by
+  refine ⟨?_, ?_, ?_⟩ <;> rintro rfl <;> exact absurd h (by decide)
+
+theorem isInfixOf_uu (ds : Str) (hd : ∀ c ∈ ds, c ≠ '_') : isInfixOf (py!"__") ds = false := by
+  unfold isInfixOf
+  rw [List.any_eq_false]
+  intro t ht
+  rw [List.mem_tails] at ht
+  cases t with
+  | nil => simp
+  | cons c t =>
+    have : c ∈ ds := ht.subset (by simp)
+    have := hd c this
+    simp only [List.isPrefixOf]
+    intro e
+    simp at e
+    exact absurd e.1.symm this
+
+/-- the sign split of `parseInt` -/
+def signSplit (t : Str) : Bool × Str :=
+  match t with
+  | '-' :: r => (true, r)
+  | '+' :: r => (false, r)
+  | r => (false, r)
+
+theorem parseInt_unfold (s : Str) : parseInt s =
+    (let p := signSplit (rstrip (s.dropWhile isPySpace))
+     let okUnderscores : Bool := p.2.head? ≠ some '_' ∧ p.2.getLast? ≠ some '_' ∧ isInfixOf (py!"__") p.2 = false
+     let ds' := p.2.filter (· ≠ '_')
+     if ds' = [] ∨ ds'.all isAsciiDigit = false ∨ okUnderscores = false ∨ ds'.length > intMaxStrDigits then throw .value
+     else pure (if p.1 then - (digitsToNat ds' : Int) else (digitsToNat ds' : Int))) := by
+  rfl
+
+theorem signSplit_minus (r : Str) : signSplit ('-' :: r) = (true, r) := rfl
+
+theorem signSplit_digit (d : Char) (r : Str) (h1 : d ≠ '-') (h2 : d ≠ '+') : signSplit (d :: r) = (false, d :: r) := by
+  unfold signSplit
+  split
+  · rename_i h; simp at h; exact absurd h.1 h1
+  · rename_i h; simp at h; exact absurd h.1 h2
+  · rfl
+
+
+theorem digitsToNat_eq (ds : Str) : digitsToNat ds = Nat.ofDigitChars 10 ds 0 := rfl
+
+/-- `int()` of optional blanks, an optional minus sign and a non-empty run of at most 4300 ASCII digits -/
+theorem parseInt_digits (neg : Bool) (sp ds : Str) (hsp : ∀ c ∈ sp, isPySpace c = true) (hne : ds ≠ [])
+    (hd : ∀ c ∈ ds, c.isDigit = true) (hlen : ds.length ≤ 4300) :
+    parseInt (sp ++ (if neg then '-' :: ds else ds)) =
+      .ok (if neg then - (digitsToNat ds : Int) else (digitsToNat ds : Int)) := by
+  obtain ⟨d, ds', rfl⟩ := List.exists_cons_of_ne_nil hne
+  have hd0 := hd d (by simp)
+  have hnu : ∀ c ∈ d :: ds', c ≠ '_' := fun c hc => (digit_ne c (hd c hc)).2.2
+  have hlast : isPySpace ((d :: ds').getLast (by simp)) = false :=
+    not_space_of_digit _ (hd _ (List.getLast_mem _))
+  have hfilter : (d :: ds').filter (fun c => decide (c ≠ '_')) = d :: ds' := by
+    rw [List.filter_eq_self]; intro c hc; simpa using hnu c hc
+  have hall : (d :: ds').all isAsciiDigit = true := by
+    rw [List.all_eq_true]; intro c hc; rw [isAsciiDigit_eq]; exact hd c hc
+  have hhead : (d :: ds').head? ≠ some '_' := by simpa using hnu d (by simp)
+  have hgl : (d :: ds').getLast? ≠ some '_' := by
+    rw [List.getLast?_eq_some_getLast (by simp)]
+    intro e; injection e with e
+    exact hnu _ (List.getLast_mem _) e
+  have hinf := isInfixOf_uu (d :: ds') hnu
+  have hlen' : ¬ (d :: ds').length > intMaxStrDigits := by unfold intMaxStrDigits; omega
+  have hsplit : signSplit (rstrip ((sp ++ (if neg then '-' :: d :: ds' else d :: ds')).dropWhile isPySpace)) =
+      (neg, d :: ds') := by
+    cases neg
+    · have h1 : (sp ++ d :: ds').dropWhile isPySpace = d :: ds' := by
+        rw [List.dropWhile_append_of_pos hsp, List.dropWhile_cons_of_neg (by simp [not_space_of_digit d hd0])]
+      have h2 : rstrip (d :: ds') = d :: ds' := rstrip_eq_self _ (fun _ => hlast)
+      simp only [Bool.false_eq_true, if_false, h1, h2]
+      exact signSplit_digit d ds' (digit_ne d hd0).1 (digit_ne d hd0).2.1
+    · have h1 : (sp ++ '-' :: d :: ds').dropWhile isPySpace = '-' :: d :: ds' := by
+        rw [List.dropWhile_append_of_pos hsp, List.dropWhile_cons_of_neg (by decide)]
+      have h2 : rstrip ('-' :: d :: ds') = '-' :: d :: ds' :=
+        rstrip_eq_self _ (fun _ => by simpa [List.getLast_cons] using hlast)
+      simp only [if_true, h1, h2]
+      rfl
+  rw [parseInt_unfold]
+  simp only [hsplit, hfilter, hall, hinf, hlen']
+  simp
+  exact ⟨hnu d (by simp), hgl⟩
+
+
+/-- `int(str(n)) == n`, also with leading blanks (right-aligned fields) -/
+theorem parseInt_pyStrInt (sp : Str) (hsp : ∀ c ∈ sp, isPySpace c = true) (n : Int) (hn : n.natAbs < 10 ^ 4300) :
+    parseInt (sp ++ pyStrInt n) = .ok n := by
+  rw [pyStrInt_eq]
+  by_cases h : 0 ≤ n
+  · have := parseInt_digits false sp (Nat.toDigits 10 n.toNat) hsp Nat.toDigits_ne_nil
+      (fun c hc => Nat.isDigit_of_mem_toDigits (by decide) (by decide) hc)
+      ((Nat.length_toDigits_le_iff (by decide) (by decide)).2 (by omega))
+    simp only [Bool.false_eq_true, if_false, digitsToNat_eq, Nat.ofDigitChars_ten_toDigits] at this
+    rw [if_pos h, this]
+    congr 1; omega
+  · have := parseInt_digits true sp (Nat.toDigits 10 (-n).toNat) hsp Nat.toDigits_ne_nil
+      (fun c hc => Nat.isDigit_of_mem_toDigits (by decide) (by decide) hc)
+      ((Nat.length_toDigits_le_iff (by decide) (by decide)).2 (by omega))
+    simp only [if_true, digitsToNat_eq, Nat.ofDigitChars_ten_toDigits] at this
+    rw [if_neg h, this]
+    congr 1; omega
+
+theorem parseInt_pyStrInt' (n : Int) (hn : n.natAbs < 10 ^ 4300) : parseInt (pyStrInt n) = .ok n := by
+  simpa using parseInt_pyStrInt [] (by simp) n hn
+
+/-! ### the tokens of a blank-separated line -/
+
+theorem rstrip_eq_self' (s : Str) (h : ∀ c, isPySpace c = true → s.getLast? ≠ some c) : rstrip s = s := by
+  apply rstrip_eq_self
+  intro hne
+  by_contra hc
+  rw [Bool.not_eq_false] at hc
+  exact h _ hc (List.getLast?_eq_some_getLast hne)
+
+theorem join_append (sep : Str) : ∀ (A B : List Str), A ≠ [] → B ≠ [] →
+    join sep (A ++ B) = join sep A ++ sep ++ join sep B
+  | [], _, h, _ => absurd rfl h
+  | [a], b :: r, _, _ => by rw [List.singleton_append, join_cons_cons, join_singleton]
+  | a :: a' :: r, B, _, hB => by
+    rw [List.cons_append, List.cons_append, join_cons_cons, ← List.cons_append, join_append sep (a' :: r) B (by simp) hB,
+      join_cons_cons]
+    simp
+
+/-- the tokens of a blank-joined list of blank-free fields are the non-empty fields -/
+theorem tokens_join (ts : List Str) (hne : ts ≠ []) (hsp : ∀ t ∈ ts, ' ' ∉ t)
+    (hlast : ∀ c, isPySpace c = true → (join py!" " ts).getLast? ≠ some c) :
+    tokens (join py!" " ts) = ts.filter (· ≠ []) := by
+  unfold tokens
+  rw [rstrip_eq_self' _ hlast, split_join ' ' ts hne hsp]
+
+theorem v30_join (ts : List Str) (hne : ts ≠ []) : v30 ++ join py!" " ts = join py!" " ([py!"M", py!"", py!"V30"] ++ ts) := by
+  rw [join_append _ _ _ (by simp) hne]
+  simp [v30, join_cons_cons, join_singleton]
+
+theorem space_not_digit (c : Char) (h : isPySpace c = true) : c.isDigit = false := by
+  by_contra hd
+  rw [Bool.not_eq_false] at hd
+  rw [not_space_of_digit c hd] at h
+  cases h
+
+theorem blank_not_mem_pyStrInt (n : Int) : ' ' ∉ pyStrInt n := by
+  intro h
+  rcases mem_pyStrInt n _ h with h | h
+  · exact absurd h (by decide)
+  · exact absurd h (by decide)
+
+theorem eq_not_mem_pyStrInt (n : Int) : '=' ∉ pyStrInt n := by
+  intro h
+  rcases mem_pyStrInt n _ h with h | h
+  · exact absurd h (by decide)
+  · exact absurd h (by decide)
+
+/-- the token of an optional `KEY=value` property -/
+def optTok (key : Str) (o : Option Int) (P : Int → Prop) [DecidablePred P] : List Str :=
+  match o with
+  | some c => if P c then [key ++ pyStrInt c] else []
+  | none => []
+
+theorem join_optTok (A : List Str) (hA : A ≠ []) (key : Str) (o : Option Int) (P : Int → Prop) [DecidablePred P] :
+    join py!" " (A ++ optTok key o P) =
+      join py!" " A ++ (match o with | some c => if P c then (' ' :: key) ++ pyStrInt c else [] | none => []) := by
+  cases o with
+  | none => simp [optTok]
+  | some c =>
+    by_cases h : P c
+    · simp only [optTok, h, if_true]
+      rw [join_append _ _ _ hA (by simp), join_singleton]
+      simp
+    · simp [optTok, h]
+
+theorem mem_optTok (key : Str) (o : Option Int) (P : Int → Prop) [DecidablePred P] (t : Str) (h : t ∈ optTok key o P) :
+    ∃ c, t = key ++ pyStrInt c := by
+  cases o with
+  | none => simp [optTok] at h
+  | some c =>
+    by_cases hp : P c
+    · simp only [optTok, hp, if_true, List.mem_singleton] at h; exact ⟨c, h⟩
+    · simp [optTok, hp] at h
+
+/-- the fields of an atom line -/
+def atomFields (env : DepEnv) (p : Int × Attrs) : List Str :=
+  [pyStrInt (p.1 + 1), symbolOf p.2, env.fmt6 (coord p.2 "x_coord"), env.fmt6 (coord p.2 "y_coord"),
+    env.fmt6 (coord p.2 "z_coord"), py!"0"] ++
+  optTok py!"CHG=" (intAttr p.2 "chg") (fun c => c ≠ 0 ∧ -15 ≤ c ∧ c ≤ 15) ++
+  optTok py!"RAD=" (intAttr p.2 "rad") (fun c => 1 ≤ c ∧ c ≤ 3) ++
+  optTok py!"MASS=" (intAttr p.2 "mass") (fun c => 0 < c)
+
+theorem atomLogical_eq_join (env : DepEnv) (p : Int × Attrs) : atomLogical env p = join py!" " (atomFields env p) := by
+  unfold atomFields
+  rw [join_optTok _ (by simp), join_optTok _ (by simp), join_optTok _ (by simp)]
+  simp only [join_cons_cons, join_singleton]
+  simp [atomLogical, chgField, radField, massField]
+
+/-! ### the atom line as the reader sees it -/
+
+open Contracts.V3000 in
+/-- the property of an optional value that is written -/
+def propOf (key : Str) (w : Option Int) : List Contracts.V3000.Prop' :=
+  match w with
+  | some c => [⟨key, pyStrInt c, []⟩]
+  | none => []
+
+/-- the charge / radical / isotope mass that the format can express and the writer writes -/
+def wChg (attrs : Attrs) : Option Int := (intAttr attrs "chg").filter (fun c => decide (c ≠ 0 ∧ -15 ≤ c ∧ c ≤ 15))
+def wRad (attrs : Attrs) : Option Int := (intAttr attrs "rad").filter (fun c => decide (1 ≤ c ∧ c ≤ 3))
+def wMass (attrs : Attrs) : Option Int := (intAttr attrs "mass").filter (fun c => decide (0 < c))
+
+/-- the abstract V3000 atom line (in the sense of Contracts.V3000) that the writer produces for a node -/
+def atomLineOf (env : DepEnv) (p : Int × Attrs) : Contracts.V3000.AtomLine :=
+  { idx := pyStrInt (p.1 + 1), sym := symbolOf p.2, x := env.fmt6 (coord p.2 "x_coord"),
+    y := env.fmt6 (coord p.2 "y_coord"), z := env.fmt6 (coord p.2 "z_coord"), aamap := py!"0",
+    props := propOf py!"CHG" (wChg p.2) ++ propOf py!"RAD" (wRad p.2) ++ propOf py!"MASS" (wMass p.2) }
+
+theorem optTok_eq (key : Str) (o : Option Int) (P : Int → Prop) [DecidablePred P] :
+    optTok (key ++ py!"=") o P = (propOf key (o.filter (fun c => decide (P c)))).flatMap Contracts.V3000.Prop'.tokens := by
+  cases o with
+  | none => simp [optTok, propOf]
+  | some c =>
+    by_cases h : P c
+    · simp [optTok, propOf, h, Option.filter, Contracts.V3000.Prop'.tokens]
+    · simp [optTok, propOf, h, Option.filter]
+
+theorem atomFields_eq (env : DepEnv) (p : Int × Attrs) :
+    [py!"M", py!"V30"] ++ atomFields env p = (atomLineOf env p).tokens := by
+  have h1 := optTok_eq py!"CHG" (intAttr p.2 "chg") (fun c => c ≠ 0 ∧ -15 ≤ c ∧ c ≤ 15)
+  have h2 := optTok_eq py!"RAD" (intAttr p.2 "rad") (fun c => 1 ≤ c ∧ c ≤ 3)
+  have h3 := optTok_eq py!"MASS" (intAttr p.2 "mass") (fun c => 0 < c)
+  simp only [List.cons_append, List.nil_append] at h1 h2 h3
+  unfold atomFields
+  rw [h1, h2, h3]
+  simp [Contracts.V3000.AtomLine.tokens, atomLineOf, wChg, wRad, wMass, List.flatMap_append]
+
+/-- a field of the file: non-empty, no blank, no `=` -/
+def CleanTok (t : Str) : Prop := t ≠ [] ∧ ' ' ∉ t ∧ '=' ∉ t
+
+theorem noOpt_of_no_eq (t : Str) (h : '=' ∉ t) : Contracts.V3000.NoOpt t := by
+  have key : ∀ pre : Str, '=' ∈ pre → startswith t pre = false := by
+    intro pre hpre
+    by_contra hst
+    simp only [startswith, Bool.not_eq_false, List.isPrefixOf_iff_prefix] at hst
+    exact h (hst.subset hpre)
+  exact ⟨key _ (by decide), key _ (by decide), key _ (by decide)⟩
+
+set_option maxRecDepth 100000 in
+theorem elements_clean : ∀ k ∈ Tucan.Consts.ELEMENT_ATTRS.keys,
+    k ≠ [] ∧ ' ' ∉ k ∧ '=' ∉ k ∧ k ≠ py!"D" ∧ k ≠ py!"T" ∧ k ≠ py!"*" := by
+  decide
+
+/-- the coordinates of a node are printed as clean fields -/
+def CoordsClean (env : DepEnv) (attrs : Attrs) : Prop :=
+  CleanTok (env.fmt6 (coord attrs "x_coord")) ∧ CleanTok (env.fmt6 (coord attrs "y_coord")) ∧
+    CleanTok (env.fmt6 (coord attrs "z_coord"))
+
+theorem atomFields_clean (env : DepEnv) (p : Int × Attrs) (hsym : CleanTok (symbolOf p.2)) (hc : CoordsClean env p.2) :
+    ∀ t ∈ atomFields env p, t ≠ [] ∧ ' ' ∉ t := by
+  intro t ht
+  simp only [atomFields, List.mem_append, List.mem_cons, List.not_mem_nil, or_false] at ht
+  have hopt : ∀ key : Str, ' ' ∉ key → key ≠ [] → (∃ c, t = key ++ pyStrInt c) → t ≠ [] ∧ ' ' ∉ t := by
+    rintro key hk hne ⟨c, rfl⟩
+    refine ⟨by simp [hne], ?_⟩
+    simp only [List.mem_append, not_or]
+    exact ⟨hk, blank_not_mem_pyStrInt c⟩
+  rcases ht with (((rfl | rfl | rfl | rfl | rfl | rfl) | ht) | ht) | ht
+  · exact ⟨pyStrInt_ne_nil _, blank_not_mem_pyStrInt _⟩
+  · exact ⟨hsym.1, hsym.2.1⟩
+  · exact ⟨hc.1.1, hc.1.2.1⟩
+  · exact ⟨hc.2.1.1, hc.2.1.2.1⟩
+  · exact ⟨hc.2.2.1, hc.2.2.2.1⟩
+  · decide
+  · exact hopt _ (by decide) (by decide) (mem_optTok _ _ _ t ht)
+  · exact hopt _ (by decide) (by decide) (mem_optTok _ _ _ t ht)
+  · exact hopt _ (by decide) (by decide) (mem_optTok _ _ _ t ht)
+
+theorem atomLogical_ne_nil (env : DepEnv) (p : Int × Attrs) : atomLogical env p ≠ [] := by
+  simp [atomLogical, pyStrInt_ne_nil]
+
+/-- **C09, atom line, tokens.** The reader's tokenizer splits the written atom line into exactly the
+fields `M V30 index symbol x y z 0 [CHG=c] [RAD=r] [MASS=m]`. -/
+theorem tokens_atomLogical (env : DepEnv) (p : Int × Attrs) (hsym : CleanTok (symbolOf p.2)) (hc : CoordsClean env p.2) :
+    tokens (v30 ++ atomLogical env p) = (atomLineOf env p).tokens := by
+  have hcl := atomFields_clean env p hsym hc
+  have hne : atomFields env p ≠ [] := by simp [atomFields]
+  rw [← atomFields_eq, atomLogical_eq_join, v30_join _ hne, tokens_join]
+  · have hf : (atomFields env p).filter (· ≠ []) = atomFields env p :=
+      List.filter_eq_self.mpr (fun t ht => by simpa using (hcl t ht).1)
+    rw [List.filter_append, hf]
+    simp
+  · simp
+  · intro t ht
+    rcases List.mem_append.mp ht with ht | ht
+    · simp only [List.mem_cons, List.not_mem_nil, or_false] at ht
+      rcases ht with rfl | rfl | rfl <;> decide
+    · exact (hcl t ht).2
+  · intro c hcs
+    rw [← v30_join _ hne, ← atomLogical_eq_join]
+    exact getLast?_append_of_ne c _ _ (getLast?_atomLogical c (space_not_digit c hcs) env p) (atomLogical_ne_nil env p)
+
+theorem small_lt (c : Int) (h1 : -15 ≤ c) (h2 : c ≤ 15) : c.natAbs < 10 ^ 4300 := by
+  have hc : c.natAbs < 10 ^ 2 := by norm_num; omega
+  exact lt_of_lt_of_le hc (Nat.pow_le_pow_right (by decide) (by decide))
+
+theorem wChg_spec (attrs : Attrs) (c : Int) (h : wChg attrs = some c) :
+    intAttr attrs "chg" = some c ∧ c ≠ 0 ∧ -15 ≤ c ∧ c ≤ 15 := by
+  simpa [wChg, Option.filter_eq_some_iff] using h
+
+theorem wRad_spec (attrs : Attrs) (c : Int) (h : wRad attrs = some c) : intAttr attrs "rad" = some c ∧ 1 ≤ c ∧ c ≤ 3 := by
+  simpa [wRad, Option.filter_eq_some_iff] using h
+
+theorem wMass_spec (attrs : Attrs) (c : Int) (h : wMass attrs = some c) : intAttr attrs "mass" = some c ∧ 0 < c := by
+  simpa [wMass, Option.filter_eq_some_iff] using h
+
+/-- what is written can be read: a non-zero value that `int()` accepts -/
+def Readable (w : Option Int) : Prop := ∀ c, w = some c → c ≠ 0 ∧ parseInt (pyStrInt c) = .ok c
+
+theorem readable_wChg (attrs : Attrs) : Readable (wChg attrs) := by
+  intro c h
+  obtain ⟨_, h0, h1, h2⟩ := wChg_spec attrs c h
+  exact ⟨h0, parseInt_pyStrInt' c (small_lt c h1 h2)⟩
+
+theorem readable_wRad (attrs : Attrs) : Readable (wRad attrs) := by
+  intro c h
+  obtain ⟨_, h1, h2⟩ := wRad_spec attrs c h
+  exact ⟨by omega, parseInt_pyStrInt' c (small_lt c (by omega) (by omega))⟩
+
+theorem readable_wMass (attrs : Attrs) (hm : ∀ m, wMass attrs = some m → m.natAbs < 10 ^ 4300) : Readable (wMass attrs) := by
+  intro c h
+  obtain ⟨_, h1⟩ := wMass_spec attrs c h
+  exact ⟨by omega, parseInt_pyStrInt' c (hm c h)⟩
+
+open Contracts.V3000 in
+theorem propVals_append (A B : List Prop') (K : Str) : propVals (A ++ B) K = propVals A K ++ propVals B K := by
+  simp [propVals, List.filter_append]
+
+open Contracts.V3000 in
+theorem propVals_propOf_ne (key K : Str) (w : Option Int) (h : key ≠ K) : propVals (propOf key w) K = [] := by
+  cases w <;> simp [propVals, propOf, h]
+
+open Contracts.V3000 in
+theorem propInt_propOf (K : Str) (w : Option Int) (h : Readable w) :
+    lastNonzero ((propVals (propOf K w) K).map intOf) = w := by
+  cases w with
+  | none => simp [propVals, propOf, lastNonzero]
+  | some c =>
+    obtain ⟨h0, hp⟩ := h c rfl
+    simp [propVals, propOf, lastNonzero, intOf_eq _ _ hp, Option.filter, h0]
+
+open Contracts.V3000 in
+theorem propInt_props (wc wr wm : Option Int) (hc : Readable wc) (hr : Readable wr) (hm : Readable wm) :
+    propInt (propOf py!"CHG" wc ++ propOf py!"RAD" wr ++ propOf py!"MASS" wm) py!"CHG" = wc ∧
+    propInt (propOf py!"CHG" wc ++ propOf py!"RAD" wr ++ propOf py!"MASS" wm) py!"RAD" = wr ∧
+    propInt (propOf py!"CHG" wc ++ propOf py!"RAD" wr ++ propOf py!"MASS" wm) py!"MASS" = wm := by
+  refine ⟨?_, ?_, ?_⟩
+  · rw [propInt, propVals_append, propVals_append, propVals_propOf_ne py!"RAD" _ _ (by decide),
+      propVals_propOf_ne py!"MASS" _ _ (by decide), List.append_nil, List.append_nil, propInt_propOf _ _ hc]
+  · rw [propInt, propVals_append, propVals_append, propVals_propOf_ne py!"CHG" _ _ (by decide),
+      propVals_propOf_ne py!"MASS" _ _ (by decide), List.append_nil, List.nil_append, propInt_propOf _ _ hr]
+  · rw [propInt, propVals_append, propVals_append, propVals_propOf_ne py!"CHG" _ _ (by decide),
+      propVals_propOf_ne py!"RAD" _ _ (by decide), List.append_nil, List.nil_append, propInt_propOf _ _ hm]
+
+theorem mem_propOf (key : Str) (w : Option Int) (pr : Contracts.V3000.Prop') (h : pr ∈ propOf key w) :
+    ∃ c, w = some c ∧ pr = ⟨key, pyStrInt c, []⟩ := by
+  cases w with
+  | none => simp [propOf] at h
+  | some c => exact ⟨c, rfl, by simpa [propOf] using h⟩
+
+/-- the sizes `int()` accepts (CPython refuses more than 4300 digits): index and isotope mass -/
+def AtomSizeOk (p : Int × Attrs) : Prop :=
+  (p.1 + 1).natAbs < 10 ^ 4300 ∧ ∀ m, wMass p.2 = some m → m.natAbs < 10 ^ 4300
+
+/-- **C09, atom line, well-formedness.** The written atom line is a well-formed V3000 atom line. -/
+theorem atomLineOf_WF (env : DepEnv) (p : Int × Attrs) (hc : CoordsClean env p.2) (hs : AtomSizeOk p) :
+    (atomLineOf env p).WF := by
+  refine ⟨⟨_, parseInt_pyStrInt' _ hs.1⟩, noOpt_of_no_eq _ hc.1.2.2, noOpt_of_no_eq _ hc.2.1.2.2,
+    noOpt_of_no_eq _ hc.2.2.2.2,
+    noOpt_of_no_eq _ (show '=' ∉ py!"0" by decide), ?_, ?_, ?_⟩
+  · intro pr hpr
+    simp only [atomLineOf, List.mem_append] at hpr
+    rcases hpr with (hpr | hpr) | hpr <;> obtain ⟨c, _, rfl⟩ := mem_propOf _ _ _ hpr <;> simp
+  · intro pr hpr _
+    simp only [atomLineOf, List.mem_append] at hpr
+    rcases hpr with (hpr | hpr) | hpr <;> obtain ⟨c, hw, rfl⟩ := mem_propOf _ _ _ hpr
+    · exact ⟨c, (readable_wChg p.2 c hw).2⟩
+    · exact ⟨c, (readable_wRad p.2 c hw).2⟩
+    · exact ⟨c, (readable_wMass p.2 hs.2 c hw).2⟩
+  · intro pr hpr t ht
+    simp only [atomLineOf, List.mem_append] at hpr
+    rcases hpr with (hpr | hpr) | hpr <;> obtain ⟨c, _, rfl⟩ := mem_propOf _ _ _ hpr <;> simp at ht
+
+/-- the attributes the reader is expected to build for a node: symbol, atomic number, partition 0,
+the re-parsed coordinates, and the written charge, isotope mass and radical -/
+def readBack (sym : Str) (Z : Int) (fx fy fz : Flt) (attrs : Attrs) : Attrs :=
+  Contracts.V3000.mkAtomAttrs sym (Val.int Z) fx fy fz (wChg attrs) (wMass attrs) (wRad attrs)
+
+/-- **C09, atom line, meaning.** For a node whose element symbol is in the element table, the line
+means: that symbol, its atomic number, partition 0, the coordinates `float(f"{x:.6f}")`, and exactly the
+charge / isotope mass / radical that are in the format's ranges. -/
+theorem atomMeaning_atomLineOf (env : DepEnv) (i : Int) (attrs : Attrs) (sym : Str) (fx fy fz : Flt)
+    (hsym : attrs.get? "element_symbol" = some (Val.str sym)) (hel : sym ∈ Tucan.Consts.ELEMENT_ATTRS.keys)
+    (hc : CoordsClean env attrs) (hs : AtomSizeOk (i, attrs))
+    (hx : env.parseFloat (env.fmt6 (coord attrs "x_coord")) = .ok fx)
+    (hy : env.parseFloat (env.fmt6 (coord attrs "y_coord")) = .ok fy)
+    (hz : env.parseFloat (env.fmt6 (coord attrs "z_coord")) = .ok fz) :
+    ∃ Z : Int, Contracts.V3000.atomicNumber sym = .ok (Val.int Z) ∧
+      Contracts.V3000.atomMeaning env (atomLineOf env (i, attrs)) = .ok (some (readBack sym Z fx fy fz attrs)) := by
+  obtain ⟨Z, hZ⟩ := Contracts.V3000.atomicNumber_known sym hel
+  obtain ⟨_, _, _, hD, hT, hstar⟩ := elements_clean sym hel
+  have hso : symbolOf attrs = sym := by simp [symbolOf, hsym, pyStr]
+  have hiso : Contracts.V3000.hydrogenIsotope sym = (sym, 0) := by simp [Contracts.V3000.hydrogenIsotope, hD, hT]
+  have hsym' : (atomLineOf env (i, attrs)).sym = sym := hso
+  refine ⟨Z, hZ, ?_⟩
+  rw [Contracts.V3000.atomMeaning_ok env _ (atomLineOf_WF env (i, attrs) hc hs) (by rw [hsym']; exact hstar)
+    (Val.int Z) fx fy fz (by rw [hsym', hiso]; exact hZ) hx hy hz]
+  obtain ⟨h1, h2, h3⟩ := propInt_props (wChg attrs) (wRad attrs) (wMass attrs) (readable_wChg attrs) (readable_wRad attrs)
+    (readable_wMass attrs hs.2)
+  simp only [Contracts.V3000.atomAttrs, hsym', hiso, readBack]
+  simp only [atomLineOf, h1, h2, h3, if_true]
+
+/-- **C09, atom line round trip.** `_parse_atom_attributes` on the tokens of the written line. -/
+theorem C09_atom_roundtrip (env : DepEnv) (i : Int) (attrs : Attrs) (sym : Str) (fx fy fz : Flt)
+    (hsym : attrs.get? "element_symbol" = some (Val.str sym)) (hel : sym ∈ Tucan.Consts.ELEMENT_ATTRS.keys)
+    (hc : CoordsClean env attrs) (hs : AtomSizeOk (i, attrs))
+    (hx : env.parseFloat (env.fmt6 (coord attrs "x_coord")) = .ok fx)
+    (hy : env.parseFloat (env.fmt6 (coord attrs "y_coord")) = .ok fy)
+    (hz : env.parseFloat (env.fmt6 (coord attrs "z_coord")) = .ok fz) :
+    ∃ Z : Int, Contracts.V3000.atomicNumber sym = .ok (Val.int Z) ∧
+      Tucan.molfile_v3000_reader._parse_atom_attributes env (tokens (v30 ++ atomLogical env (i, attrs))) =
+        .ok (readBack sym Z fx fy fz attrs, false) ∧
+      (getItem (tokens (v30 ++ atomLogical env (i, attrs))) (2 : Int) >>= parseInt) = .ok (i + 1) := by
+  obtain ⟨Z, hZ, hm⟩ := atomMeaning_atomLineOf env i attrs sym fx fy fz hsym hel hc hs hx hy hz
+  obtain ⟨hne, hb, he, _⟩ := elements_clean sym hel
+  have hso : symbolOf attrs = sym := by simp [symbolOf, hsym, pyStr]
+  have htok := tokens_atomLogical env (i, attrs) (by rw [hso]; exact ⟨hne, hb, he⟩) hc
+  refine ⟨Z, hZ, ?_, ?_⟩
+  · rw [htok, Contracts.V3000._parse_atom_attributes_eq env _ (atomLineOf_WF env (i, attrs) hc hs).shape, hm]
+    rfl
+  · rw [htok, Contracts.V3000.getItem_idx]
+    exact parseInt_pyStrInt' _ hs.1
+
+/-- in-range values are written (and hence read back) unchanged; absent ones stay absent -/
+theorem wChg_of_range (attrs : Attrs) (c : Int) (h : intAttr attrs "chg" = some c) (h0 : c ≠ 0) (h1 : -15 ≤ c) (h2 : c ≤ 15) :
+    wChg attrs = some c := by simp [wChg, h, Option.filter, h0, h1, h2]
+theorem wRad_of_range (attrs : Attrs) (c : Int) (h : intAttr attrs "rad" = some c) (h1 : 1 ≤ c) (h2 : c ≤ 3) :
+    wRad attrs = some c := by simp [wRad, h, Option.filter, h1, h2]
+theorem wMass_of_range (attrs : Attrs) (c : Int) (h : intAttr attrs "mass" = some c) (h1 : 0 < c) :
+    wMass attrs = some c := by simp [wMass, h, Option.filter, h1]
+theorem wChg_of_none (attrs : Attrs) (h : intAttr attrs "chg" = none) : wChg attrs = none := by simp [wChg, h]
+theorem wRad_of_none (attrs : Attrs) (h : intAttr attrs "rad" = none) : wRad attrs = none := by simp [wRad, h]
+theorem wMass_of_none (attrs : Attrs) (h : intAttr attrs "mass" = none) : wMass attrs = none := by simp [wMass, h]
+
+/-! ### bond lines -/
+
+/-- the abstract V3000 bond line the writer produces: no further properties, no ENDPTS -/
+def bondLineOf (p : Int × Int × Int × Attrs) : Contracts.V3000.BondLine :=
+  { idx := pyStrInt p.1, typ := bondTypeOf p.2.2.2, a1 := pyStrInt (p.2.1 + 1), a2 := pyStrInt (p.2.2.1 + 1),
+    pre := [], endpts := none }
+
+theorem bondLogical_eq_join (p : Int × Int × Int × Attrs) :
+    bondLogical p = join py!" " [pyStrInt p.1, bondTypeOf p.2.2.2, pyStrInt (p.2.1 + 1), pyStrInt (p.2.2.1 + 1)] := by
+  simp [bondLogical, join_cons_cons, join_singleton]
+
+theorem bondLogical_ne_nil (p : Int × Int × Int × Attrs) : bondLogical p ≠ [] := by
+  simp [bondLogical, pyStrInt_ne_nil]
+
+/-- **C09, bond line, tokens.** -/
+theorem tokens_bondLogical (p : Int × Int × Int × Attrs) (hne : bondTypeOf p.2.2.2 ≠ []) (hb : ' ' ∉ bondTypeOf p.2.2.2) :
+    tokens (v30 ++ bondLogical p) = (bondLineOf p).tokens := by
+  rw [bondLogical_eq_join, v30_join _ (by simp), tokens_join]
+  · simp [Contracts.V3000.BondLine.tokens, bondLineOf, pyStrInt_ne_nil, hne]
+  · simp
+  · intro t ht
+    simp only [List.cons_append, List.nil_append, List.mem_cons, List.not_mem_nil, or_false] at ht
+    rcases ht with rfl | rfl | rfl | rfl | rfl | rfl | rfl
+    · decide
+    · decide
+    · decide
+    · exact blank_not_mem_pyStrInt _
+    · exact hb
+    · exact blank_not_mem_pyStrInt _
+    · exact blank_not_mem_pyStrInt _
+  · intro c hcs
+    rw [← v30_join _ (by simp), ← bondLogical_eq_join]
+    exact getLast?_append_of_ne c _ _ (getLast?_bondLogical c (space_not_digit c hcs) p) (bondLogical_ne_nil p)
+
+/-- **C09, bond line round trip.** For an integer bond type `b` (default 1) the written bond line
+`k b u+1 v+1` is read back as the bond `(u, v)` with `bond_type = b`. -/
+theorem C09_bond_roundtrip (env : DepEnv) (k u v b : Int) (attrs : Attrs)
+    (hbt : (attrs.get? "bond_type").getD (Val.int 1) = Val.int b)
+    (hu : (u + 1).natAbs < 10 ^ 4300) (hv : (v + 1).natAbs < 10 ^ 4300)
+    (hb : b.natAbs < 10 ^ 4300) :
+    tokens (v30 ++ bondLogical (k, u, v, attrs)) = (bondLineOf (k, u, v, attrs)).tokens ∧
+    (bondLineOf (k, u, v, attrs)).Shape ∧
+    Tucan.molfile_v3000_reader._parse_bond_attributes env (tokens (v30 ++ bondLogical (k, u, v, attrs))) =
+      .ok (Contracts.V3000.bondAttrs b) ∧
+    (getItem (tokens (v30 ++ bondLogical (k, u, v, attrs))) (4 : Int) >>= parseInt) = .ok (u + 1) ∧
+    (getItem (tokens (v30 ++ bondLogical (k, u, v, attrs))) (5 : Int) >>= parseInt) = .ok (v + 1) ∧
+    Contracts.V3000.bondMeaning [] (bondLineOf (k, u, v, attrs)) = .ok ([(u, v)], Contracts.V3000.bondAttrs b) := by
+  have hty : bondTypeOf attrs = pyStrInt b := by simp [bondTypeOf, hbt, pyStr]
+  have htok := tokens_bondLogical (k, u, v, attrs) (by rw [hty]; exact pyStrInt_ne_nil b)
+    (by rw [hty]; exact blank_not_mem_pyStrInt b)
+  have hpt : parseInt (bondLineOf (k, u, v, attrs)).typ = .ok b := by
+    show parseInt (bondTypeOf attrs) = _; rw [hty]; exact parseInt_pyStrInt' b hb
+  refine ⟨htok, ?_, ?_, ?_, ?_, ?_⟩
+  · refine ⟨?_, by intro nums post h; cases h⟩
+    intro t ht
+    simp only [bondLineOf, List.append_nil, List.mem_cons, List.not_mem_nil, or_false] at ht
+    have hp : ∀ n : Int, '(' ∉ pyStrInt n := by
+      intro n h
+      rcases mem_pyStrInt n _ h with h | h <;> exact absurd h (by decide)
+    rcases ht with rfl | rfl | rfl | rfl
+    · exact hp _
+    · rw [hty]; exact hp _
+    · exact hp _
+    · exact hp _
+  · rw [htok]
+    exact Contracts.V3000._parse_bond_attributes_ok env _ _ b (Contracts.V3000.bond_g3 _) hpt
+  · rw [htok, Contracts.V3000.bond_g4]; exact parseInt_pyStrInt' _ hu
+  · rw [htok, Contracts.V3000.bond_g5]; exact parseInt_pyStrInt' _ hv
+  · have h1 : parseInt (bondLineOf (k, u, v, attrs)).a1 = .ok (u + 1) := parseInt_pyStrInt' (u + 1) hu
+    have h2 : parseInt (bondLineOf (k, u, v, attrs)).a2 = .ok (v + 1) := parseInt_pyStrInt' (v + 1) hv
+    rw [Contracts.V3000.bondMeaning_ok [] _ (u + 1) (v + 1) b h1 h2 hpt (by simp) (by intro nums post h; cases h)]
+    simp [Contracts.V3000.bondPairs]
+
+/-! ## 6. the whole file: writer, then the V3000 reader -/
+
+theorem tokens_countsLine (n m : Nat) :
+    tokens (v30 ++ countsLine n m) = [py!"M", py!"V30", py!"COUNTS", pyStrInt n, pyStrInt m, py!"0", py!"0", py!"0"] := by
+  have hj : countsLine n m = join py!" " [py!"COUNTS", pyStrInt n, pyStrInt m, py!"0", py!"0", py!"0"] := by
+    simp [countsLine, join_cons_cons, join_singleton]
+  rw [hj, v30_join _ (by simp), tokens_join]
+  · simp [pyStrInt_ne_nil]
+  · simp
+  · intro t ht
+    simp only [List.cons_append, List.nil_append, List.mem_cons, List.not_mem_nil, or_false] at ht
+    rcases ht with rfl | rfl | rfl | rfl | rfl | rfl | rfl | rfl | rfl
+    · decide
+    · decide
+    · decide
+    · decide
+    · exact blank_not_mem_pyStrInt _
+    · exact blank_not_mem_pyStrInt _
+    · decide
+    · decide
+    · decide
+  · intro c hcs
+    rw [← v30_join _ (by simp), ← hj]
+    unfold countsLine
+    refine getLast?_append_of_ne c _ _ (getLast?_append_of_ne c _ _ ?_ (by simp)) (by simp)
+    simp only [List.getLast?_cons_cons, List.getLast?_singleton, ne_eq, Option.some.injEq]
+    rintro rfl; exact absurd hcs (by decide)
+
+/-- the abstract atom and bond lines of the file -/
+def atomsOf (env : DepEnv) (g : Graph) : List Contracts.V3000.AtomLine := g.nodesData.map (atomLineOf env)
+def bondsOf (g : Graph) : List Contracts.V3000.BondLine := (numbered g.edgesData).map bondLineOf
+
+/-- what `_tokenize_lines` returns for the file (`C09_splice`) -/
+def tokLines (env : DepEnv) (g : Graph) : List (List Str) :=
+  (header env).map tokens ++ (logicalLines env g).map (fun l => tokens (v30 ++ l)) ++ [tokens py!"M  END"]
+
+/-- per-node hypotheses of the round trip: the element symbol is in the element table, the three
+coordinates are printed as clean fields that `float()` accepts, index and mass have at most 4300 digits -/
+structure NodeRT (env : DepEnv) (p : Int × Attrs) : Prop where
+  sym : ∃ s, p.2.get? "element_symbol" = some (Val.str s) ∧ s ∈ Tucan.Consts.ELEMENT_ATTRS.keys
+  coords : CoordsClean env p.2
+  size : AtomSizeOk p
+  px : ∃ f, env.parseFloat (env.fmt6 (coord p.2 "x_coord")) = .ok f
+  py : ∃ f, env.parseFloat (env.fmt6 (coord p.2 "y_coord")) = .ok f
+  pz : ∃ f, env.parseFloat (env.fmt6 (coord p.2 "z_coord")) = .ok f
+
+/-- the bond type is an integer (default 1) of at most 4300 digits -/
+def EdgeRT (e : Int × Int × Attrs) : Prop :=
+  ∃ b : Int, (e.2.2.get? "bond_type").getD (Val.int 1) = Val.int b ∧ b.natAbs < 10 ^ 4300
+
+theorem NodeRT.symClean {env : DepEnv} {p : Int × Attrs} (h : NodeRT env p) : CleanTok (symbolOf p.2) := by
+  obtain ⟨s, hs, hel⟩ := h.sym
+  obtain ⟨hne, hb, he, _⟩ := elements_clean s hel
+  have : symbolOf p.2 = s := by simp [symbolOf, hs, pyStr]
+  rw [this]; exact ⟨hne, hb, he⟩
+
+theorem atomToks_eq (env : DepEnv) (g : Graph) (hn : ∀ p ∈ g.nodesData, NodeRT env p) :
+    (atomLines env g).map (fun l => tokens (v30 ++ l)) = (atomsOf env g).map Contracts.V3000.AtomLine.tokens := by
+  simp only [atomLines, atomsOf, List.map_map]
+  apply List.map_congr_left
+  intro p hp
+  have h1 := (hn p hp).symClean
+  have h2 := (hn p hp).coords
+  simp only [Function.comp_apply]
+  exact tokens_atomLogical env p h1 h2
+
+theorem bondToks_eq (g : Graph) (he : ∀ e ∈ g.edgesData, EdgeRT e) :
+    (bondLines g).map (fun l => tokens (v30 ++ l)) = (bondsOf g).map Contracts.V3000.BondLine.tokens := by
+  simp only [bondLines, bondsOf, List.map_map]
+  apply List.map_congr_left
+  intro p hp
+  obtain ⟨b, hb, _⟩ := he p.2 (mem_numbered _ p hp)
+  have hty : bondTypeOf p.2.2.2 = pyStrInt b := by simp [bondTypeOf, hb, pyStr]
+  simp only [Function.comp_apply]
+  exact tokens_bondLogical p (by rw [hty]; exact pyStrInt_ne_nil b) (by rw [hty]; exact blank_not_mem_pyStrInt b)
+
+/-- tokens of the bond block and everything after it -/
+def bondTail (g : Graph) : List (List Str) :=
+  (if g.edgesData.length = 0 then [] else
+    [py!"M", py!"V30", py!"BEGIN", py!"BOND"] :: ((bondsOf g).map Contracts.V3000.BondLine.tokens ++
+      [[py!"M", py!"V30", py!"END", py!"BOND"]])) ++ [[py!"M", py!"V30", py!"END", py!"CTAB"], [py!"M", py!"END"]]
+
+/-- tokens of the first seven lines: header, BEGIN CTAB, COUNTS, BEGIN ATOM -/
+def pre7 (env : DepEnv) (g : Graph) : List (List Str) :=
+  (header env).map tokens ++ [[py!"M", py!"V30", py!"BEGIN", py!"CTAB"],
+    [py!"M", py!"V30", py!"COUNTS", pyStrInt g.nodesData.length, pyStrInt g.edgesData.length, py!"0", py!"0", py!"0"],
+    [py!"M", py!"V30", py!"BEGIN", py!"ATOM"]]
+
+theorem length_pre7 (env : DepEnv) (g : Graph) : (pre7 env g).length = 7 := by simp [pre7, header]
+
+theorem tokLines_eq (env : DepEnv) (g : Graph) (hn : ∀ p ∈ g.nodesData, NodeRT env p) (he : ∀ e ∈ g.edgesData, EdgeRT e) :
+    tokLines env g = pre7 env g ++ ((atomsOf env g).map Contracts.V3000.AtomLine.tokens ++
+      ([py!"M", py!"V30", py!"END", py!"ATOM"] :: bondTail g)) := by
+  have h1 : tokens (v30 ++ py!"BEGIN CTAB") = [py!"M", py!"V30", py!"BEGIN", py!"CTAB"] := by decide
+  have h2 : tokens (v30 ++ py!"BEGIN ATOM") = [py!"M", py!"V30", py!"BEGIN", py!"ATOM"] := by decide
+  have h3 : tokens (v30 ++ py!"END ATOM") = [py!"M", py!"V30", py!"END", py!"ATOM"] := by decide
+  have h4 : tokens (v30 ++ py!"BEGIN BOND") = [py!"M", py!"V30", py!"BEGIN", py!"BOND"] := by decide
+  have h5 : tokens (v30 ++ py!"END BOND") = [py!"M", py!"V30", py!"END", py!"BOND"] := by decide
+  have h6 : tokens (v30 ++ py!"END CTAB") = [py!"M", py!"V30", py!"END", py!"CTAB"] := by decide
+  have h7 : tokens py!"M  END" = [py!"M", py!"END"] := by decide
+  have hb : (bondBlock g).map (fun l => tokens (v30 ++ l)) ++ [[py!"M", py!"V30", py!"END", py!"CTAB"], [py!"M", py!"END"]] =
+      bondTail g := by
+    unfold bondBlock bondTail
+    split
+    · simp
+    · simp only [List.map_append, List.map_cons, List.map_nil, bondToks_eq g he, h4, h5]
+      simp
+  unfold tokLines logicalLines pre7
+  simp only [List.map_append, List.map_cons, List.map_nil, atomToks_eq env g hn, tokens_countsLine, h1, h2, h3, h6, h7]
+  rw [← hb]
+  simp
+
+theorem getElem?_pre {α} (pre A : List α) (x : α) (rest : List α) (k : Nat) (hk : k = pre.length + A.length) :
+    (pre ++ (A ++ x :: rest))[k]? = some x := by
+  subst hk; simp
+
+theorem drop_take_pre {α} (pre A rest : List α) (k n : Nat) (hk : k = pre.length) (hn : n = A.length) :
+    ((pre ++ (A ++ rest)).drop k).take n = A := by
+  subst hk hn; simp
+
+theorem length_numbered {α} (l : List α) : (numbered l).length = l.length := by simp [numbered]
+
+theorem length_atomsOf (env : DepEnv) (g : Graph) : (atomsOf env g).length = g.nodesData.length := by simp [atomsOf]
+theorem length_bondsOf (g : Graph) : (bondsOf g).length = g.edgesData.length := by simp [bondsOf, length_numbered]
+
+theorem nat_lt_cast (n : Nat) (h : n < 10 ^ 4300) : ((n : Int)).natAbs < 10 ^ 4300 := by
+  rw [Int.natAbs_natCast]; exact h
+
+/-- the tokenized file contains the connection table where the reader looks for it -/
+theorem ctabAt_tokLines (env : DepEnv) (g : Graph) (hn : ∀ p ∈ g.nodesData, NodeRT env p) (he : ∀ e ∈ g.edgesData, EdgeRT e)
+    (hna : g.nodesData.length < 10 ^ 4300) (hnb : g.edgesData.length < 10 ^ 4300) :
+    Contracts.V3000.CtabAt (tokLines env g) (atomsOf env g) (bondsOf g) := by
+  have hl := tokLines_eq env g hn he
+  have h7 := length_pre7 env g
+  have hla := length_atomsOf env g
+  have hlb := length_bondsOf g
+  have h5 : (tokLines env g)[5]? = some [py!"M", py!"V30", py!"COUNTS", pyStrInt g.nodesData.length,
+      pyStrInt g.edgesData.length, py!"0", py!"0", py!"0"] := by
+    rw [hl]; simp [pre7, header]
+  have h6 : (tokLines env g)[6]? = some [py!"M", py!"V30", py!"BEGIN", py!"ATOM"] := by
+    rw [hl]; simp [pre7, header]
+  have hpa : parseInt (pyStrInt g.nodesData.length) = .ok ((atomsOf env g).length : Int) := by
+    rw [hla]; exact parseInt_pyStrInt' _ (nat_lt_cast _ hna)
+  have hpb : parseInt (pyStrInt g.edgesData.length) = .ok ((bondsOf g).length : Int) := by
+    rw [hlb]; exact parseInt_pyStrInt' _ (nat_lt_cast _ hnb)
+  refine ⟨⟨_, _, _, h5, rfl, rfl, rfl, hpa, hpb⟩, ⟨⟨_, _, h5, rfl, hpa⟩, ⟨_, h6, rfl⟩,
+    ⟨[py!"M", py!"V30", py!"END", py!"ATOM"], ?_, rfl⟩, ?_⟩, ?_⟩
+  · rw [hl]
+    exact getElem?_pre _ _ _ _ _ (by simp [h7])
+  · rw [hl]
+    exact drop_take_pre _ _ _ _ _ h7.symm (by simp)
+  · intro hne
+    have hm : ¬ g.edgesData.length = 0 := by
+      intro h0; apply hne; apply List.eq_nil_of_length_eq_zero; rw [hlb, h0]
+    have hl' : tokLines env g = (pre7 env g ++ (atomsOf env g).map Contracts.V3000.AtomLine.tokens ++
+        [[py!"M", py!"V30", py!"END", py!"ATOM"], [py!"M", py!"V30", py!"BEGIN", py!"BOND"]]) ++
+        ((bondsOf g).map Contracts.V3000.BondLine.tokens ++ ([py!"M", py!"V30", py!"END", py!"BOND"] ::
+          [[py!"M", py!"V30", py!"END", py!"CTAB"], [py!"M", py!"END"]])) := by
+      rw [hl]; simp [bondTail, hm]
+    have hl'' : tokLines env g = (pre7 env g ++ (atomsOf env g).map Contracts.V3000.AtomLine.tokens ++
+        [[py!"M", py!"V30", py!"END", py!"ATOM"]]) ++ ([] ++ [py!"M", py!"V30", py!"BEGIN", py!"BOND"] ::
+        ((bondsOf g).map Contracts.V3000.BondLine.tokens ++ ([py!"M", py!"V30", py!"END", py!"BOND"] ::
+          [[py!"M", py!"V30", py!"END", py!"CTAB"], [py!"M", py!"END"]]))) := by
+      rw [hl]; simp [bondTail, hm]
+    refine ⟨⟨_, _, _, h5, rfl, rfl, hpa, hpb⟩, ⟨[py!"M", py!"V30", py!"BEGIN", py!"BOND"], ?_, rfl⟩,
+      ⟨[py!"M", py!"V30", py!"END", py!"BOND"], ?_, rfl⟩, ?_⟩
+    · rw [hl'']
+      exact getElem?_pre _ _ _ _ _ (by simp only [List.length_append, List.length_map, List.length_cons, List.length_nil, h7])
+    · rw [hl']
+      exact getElem?_pre _ _ _ _ _ (by
+        simp only [List.length_append, List.length_map, List.length_cons, List.length_nil, h7])
+    · rw [hl']
+      exact drop_take_pre _ _ _ _ _ (by
+        simp only [List.length_append, List.length_map, List.length_cons, List.length_nil, h7]) (by simp)
+
+/-- `float(f"{v:.6f}")` -/
+def fltOf (env : DepEnv) (v : Val) : Flt :=
+  match env.parseFloat (env.fmt6 v) with
+  | .ok f => f
+  | .error _ => default
+
+/-- atomic number of a symbol of the element table -/
+def zOf (sym : Str) : Int :=
+  match Contracts.V3000.atomicNumber sym with
+  | .ok (Val.int z) => z
+  | _ => 0
+
+/-- the attributes read back for a node: element symbol, atomic number, partition 0, coordinates to six
+decimals, and the charge / isotope mass / radical that are in the format's ranges -/
+def nodeReadBack (env : DepEnv) (attrs : Attrs) : Attrs :=
+  readBack (symbolOf attrs) (zOf (symbolOf attrs)) (fltOf env (coord attrs "x_coord")) (fltOf env (coord attrs "y_coord"))
+    (fltOf env (coord attrs "z_coord")) attrs
+
+/-- the integer bond type (default 1) -/
+def bondTypeInt (attrs : Attrs) : Int :=
+  match (attrs.get? "bond_type").getD (Val.int 1) with
+  | Val.int b => b
+  | _ => 1
+
+theorem atomMeaning_node (env : DepEnv) (p : Int × Attrs) (h : NodeRT env p) :
+    parseInt (atomLineOf env p).idx = .ok (p.1 + 1) ∧
+      Contracts.V3000.atomMeaning env (atomLineOf env p) = .ok (some (nodeReadBack env p.2)) := by
+  obtain ⟨i, attrs⟩ := p
+  obtain ⟨s, hs, hel⟩ := h.sym
+  obtain ⟨fx, hx⟩ := h.px
+  obtain ⟨fy, hy⟩ := h.py
+  obtain ⟨fz, hz⟩ := h.pz
+  obtain ⟨Z, hZ, hm⟩ := atomMeaning_atomLineOf env i attrs s fx fy fz hs hel h.coords h.size hx hy hz
+  have hso : symbolOf attrs = s := by simp [symbolOf, hs, pyStr]
+  refine ⟨parseInt_pyStrInt' _ h.size.1, ?_⟩
+  rw [hm]
+  simp only [nodeReadBack, hso, zOf, hZ, fltOf, hx, hy, hz]
+
+theorem map_snd_numbered {α} (l : List α) : (numbered l).map Prod.snd = l := by
+  simp [numbered, Function.comp_def]
+
+/-- what the proof uses of the networkx invariant (`Graph.WF` implies it, see `GraphOk.of_WF`) -/
+structure GraphOk (g : Graph) : Prop where
+  nodes_nodup : (g.nodesData.map Prod.fst).Nodup
+  edges_nodup : (g.edgesData.map (fun e => (e.1, e.2.1))).Nodup
+  ends : ∀ e ∈ g.edgesData, e.1 ∈ g.nodesData.map Prod.fst ∧ e.2.1 ∈ g.nodesData.map Prod.fst
+
+theorem bondMeaning_edge (env : DepEnv) (g : Graph) (hg : GraphOk g) (hn : ∀ p ∈ g.nodesData, NodeRT env p)
+    (q : Int × Int × Int × Attrs) (hq : q.2 ∈ g.edgesData) (he : EdgeRT q.2) :
+    Contracts.V3000.bondMeaning [] (bondLineOf q) =
+      .ok ([(q.2.1, q.2.2.1)], Contracts.V3000.bondAttrs (bondTypeInt q.2.2.2)) := by
+  obtain ⟨k, u, v, attrs⟩ := q
+  obtain ⟨b, hb, hbs⟩ := he
+  obtain ⟨hu, hv⟩ := hg.ends _ hq
+  simp only [List.mem_map] at hu hv
+  obtain ⟨pu, hpu, hpu'⟩ := hu
+  obtain ⟨pv, hpv, hpv'⟩ := hv
+  have su := (hn pu hpu).size.1
+  have sv := (hn pv hpv).size.1
+  simp only at hpu' hpv' hb
+  rw [hpu'] at su
+  rw [hpv'] at sv
+  have hbi : bondTypeInt attrs = b := by simp [bondTypeInt, hb]
+  have := (C09_bond_roundtrip env k u v b attrs hb su sv hbs).2.2.2.2.2
+  simp only [hbi]
+  exact this
+
+/-- the atoms read back: node index ↦ attributes, in node order -/
+def atomsBack (env : DepEnv) (g : Graph) : Dict Int Attrs := ⟨g.nodesData.map (fun p => (p.1, nodeReadBack env p.2))⟩
+/-- the bonds read back: `(u, v) ↦ {bond_type}`, in edge order -/
+def bondsBack (g : Graph) : Dict (Int × Int) Attrs :=
+  ⟨g.edgesData.map (fun e => ((e.1, e.2.1), Contracts.V3000.bondAttrs (bondTypeInt e.2.2)))⟩
+
+theorem forall₂_map_same {α β γ : Type} (R : β → γ → Prop) (f : α → β) (k : α → γ) (l : List α)
+    (h : ∀ a ∈ l, R (f a) (k a)) : List.Forall₂ R (l.map f) (l.map k) := by
+  induction l with
+  | nil => exact List.Forall₂.nil
+  | cons a l ih => exact List.Forall₂.cons (h a (by simp)) (ih (fun b hb => h b (by simp [hb])))
+
+theorem flatMap_single {α β : Type} (f : α → β) (l : List α) : l.flatMap (fun a => [f a]) = l.map f := by
+  induction l with
+  | nil => rfl
+  | cons a l ih => simp [List.flatMap_cons, ih]
+
+open Contracts.V3000 in
+/-- the meaning (Contracts.V3000) of the connection table the writer produces -/
+theorem ctabMeaning_file (env : DepEnv) (g : Graph) (hg : GraphOk g) (hn : ∀ p ∈ g.nodesData, NodeRT env p)
+    (he : ∀ e ∈ g.edgesData, EdgeRT e) :
+    ctabMeaning env (atomsOf env g) (bondsOf g) = .ok (atomsBack env g, bondsBack g) := by
+  have hA : atomBlockMeaning env (atomsOf env g) = .ok (atomsBack env g, []) := by
+    unfold atomBlockMeaning
+    rw [atomEntries_ok env (atomsOf env g) (g.nodesData.map (fun p => (p.1, some (nodeReadBack env p.2))))
+      (forall₂_map_same _ _ _ _ (fun p hp => by
+        obtain ⟨h1, h2⟩ := atomMeaning_node env p (hn p hp)
+        exact ⟨h1, h2⟩))]
+    have h1 : nonStar (g.nodesData.map (fun p => (p.1, some (nodeReadBack env p.2)))) =
+        g.nodesData.map (fun p => (p.1, nodeReadBack env p.2)) := by
+      simp [nonStar, List.filterMap_map]
+    have h2 : stars (g.nodesData.map (fun p => (p.1, some (nodeReadBack env p.2)))) = [] := by
+      simp [stars, List.filterMap_map]
+    simp only [Py.ok_bind, Py.pure_eq_ok, h1, h2]
+    rw [Dict.ofPairs_nodup _ (by simpa [List.map_map, Function.comp_def] using hg.nodes_nodup)]
+    rfl
+  have hB : bondBlockMeaning [] (bondsOf g) = .ok (bondsBack g) := by
+    unfold bondBlockMeaning
+    rw [bondEntries_ok [] (bondsOf g)
+      ((numbered g.edgesData).map (fun q => ([(q.2.1, q.2.2.1)], bondAttrs (bondTypeInt q.2.2.2))))
+      (forall₂_map_same _ _ _ _ (fun q hq =>
+        bondMeaning_edge env g hg hn q (mem_numbered _ q hq) (he _ (mem_numbered _ q hq))))]
+    have h1 : ((numbered g.edgesData).map (fun q => ([(q.2.1, q.2.2.1)], bondAttrs (bondTypeInt q.2.2.2)))).flatMap
+        (fun m => m.1.map (fun t => (t, m.2))) =
+        g.edgesData.map (fun e => ((e.1, e.2.1), bondAttrs (bondTypeInt e.2.2))) := by
+      conv_rhs => rw [← map_snd_numbered g.edgesData]
+      simp [List.flatMap_map, List.map_map, Function.comp_def, flatMap_single]
+    simp only [Py.ok_bind, Py.pure_eq_ok, h1]
+    rw [Dict.ofPairs_nodup _ (by simpa [List.map_map, Function.comp_def] using hg.edges_nodup)]
+    rfl
+  unfold ctabMeaning
+  simp only [hA, hB, Py.ok_bind]
+  rw [if_pos]
+  · rfl
+  · intro b hb
+    simp only [bondsBack, Dict.keys, List.map_map, List.mem_map, Function.comp_apply] at hb
+    obtain ⟨e, hmem, rfl⟩ := hb
+    have := hg.ends e hmem
+    simpa [atomsBack, Dict.keys, List.map_map, Function.comp_def] using this
+
+/-- **C09, whole file.** The V3000 reader, run on the physical lines the writer produces, returns the
+atoms in node order with element symbol, atomic number, partition 0, the coordinates to six decimals and
+the in-range charge / isotope mass / radical, and the bonds in edge order with their bond types. -/
+theorem C09_file_roundtrip (env : DepEnv) (g : Graph) (fuel : Nat) (hg : GraphOk g)
+    (hn : ∀ p ∈ g.nodesData, NodeRT env p) (he : ∀ e ∈ g.edgesData, EdgeRT e)
+    (hna : g.nodesData.length < 10 ^ 4300) (hnb : g.edgesData.length < 10 ^ 4300)
+    (hf : (fileLines env g).length + 1 ≤ fuel) :
+    Tucan.molfile_v3000_reader.graph_attributes_from_molfile_v3000 env fuel (fileLines env g) =
+      .ok (atomsBack env g, bondsBack g) := by
+  rw [Contracts.V3000.graph_attributes_from_molfile_v3000_eq env fuel (fileLines env g) (tokLines env g)
+    (C09_splice env g fuel hf) (atomsOf env g) (bondsOf g) (ctabAt_tokLines env g hn he hna hnb)
+    (fun a ha => by
+      simp only [atomsOf, List.mem_map] at ha
+      obtain ⟨p, hp, rfl⟩ := ha
+      exact (atomLineOf_WF env p (hn p hp).coords (hn p hp).size).shape)
+    (fun b hb => by
+      simp only [bondsOf, List.mem_map] at hb
+      obtain ⟨q, hq, rfl⟩ := hb
+      obtain ⟨bt, hbt, hbs⟩ := he _ (mem_numbered _ q hq)
+      obtain ⟨hu, hv⟩ := hg.ends _ (mem_numbered _ q hq)
+      simp only [List.mem_map] at hu hv
+      obtain ⟨pu, hpu, hpu'⟩ := hu
+      obtain ⟨pv, hpv, hpv'⟩ := hv
+      have su := (hn pu hpu).size.1
+      have sv := (hn pv hpv).size.1
+      rw [hpu'] at su
+      rw [hpv'] at sv
+      exact (C09_bond_roundtrip env q.1 q.2.1 q.2.2.1 bt q.2.2.2 hbt su sv hbs).2.1)]
+  exact ctabMeaning_file env g hg hn he
+
+/-- a well-formed networkx graph has unique node labels, lists every bond once, between nodes -/
+theorem GraphOk.of_WF {g : Graph} (hg : g.WF) : GraphOk g := by
+  have hkeys : g.nodesData.map Prod.fst = g.nodeList := rfl
+  refine ⟨by rw [hkeys]; exact hg.node_wf, Graph.nodup_edges hg, ?_⟩
+  intro e he
+  have hmem : (e.1, e.2.1) ∈ g.edges := List.mem_map.2 ⟨e, he, rfl⟩
+  have h1 := Graph.mem_edges_imp hg hmem
+  have h2 := Graph.WF.mem_nbrs_symm hg h1
+  rw [hkeys]; exact ⟨hg.nbr_mem _ _ h2, hg.nbr_mem _ _ h1⟩
+
+/-- **C09.** For a well-formed molecule graph whose attributes are in the format's ranges, the writer
+terminates with a text (i) all of whose lines, as the reader's `splitlines()` sees them, have at most 79
+characters (80 with the newline), and (ii) from which the V3000 reader recovers the atoms in node order
+(element, atomic number, partition 0, coordinates to six decimals, charge, isotope mass, radical) and
+the bonds in edge order with their types. -/
+theorem C09 (env : DepEnv) (g : Graph) (fuel fuel' : Nat) (hg : g.WF)
+    (hok : ∀ p ∈ g.nodesData, NodeOk p.2) (hn : ∀ p ∈ g.nodesData, NodeRT env p) (he : ∀ e ∈ g.edgesData, EdgeRT e)
+    (hna : g.nodesData.length < 10 ^ 4300) (hnb : g.edgesData.length < 10 ^ 4300)
+    (hstamp : env.nowStamp.length = 10) (hv : Plain env.version) (hs : Plain env.nowStamp) (hp : PlainValues env g)
+    (hf : maxLen (logicalLines env g) / 71 + 1 ≤ fuel) (hf' : (fileLines env g).length + 1 ≤ fuel') :
+    ∃ text, Tucan.molfile_writer.graph_to_molfile env fuel g false = .ok text ∧
+      (∀ l ∈ splitlines text, l.length ≤ 79) ∧
+      Tucan.molfile_v3000_reader.graph_attributes_from_molfile_v3000 env fuel' (splitlines text) =
+        .ok (atomsBack env g, bondsBack g) := by
+  refine ⟨_, graph_to_molfile_ok env fuel g hok hf, ?_, ?_⟩
+  · rw [C09_splitlines env g hv hs hp]
+    exact C09_line_length env g hstamp
+  · rw [C09_splitlines env g hv hs hp]
+    exact C09_file_roundtrip env g fuel' (GraphOk.of_WF hg) hn he hna hnb hf'
+
+#print axioms graph_to_molfile_ok
+#print axioms C09_line_length
+#print axioms C09_split_lines
+#print axioms C09_splice
+#print axioms C09_atom_roundtrip
+#print axioms C09_bond_roundtrip
+#print axioms C09_splitlines
+#print axioms C09_file_roundtrip
+#print axioms C09
 
 end Contracts.Writer
